@@ -69,10 +69,11 @@ impl AsyncRead for Src {
     }
 }
 
-pub struct Snk { pub out: Vec<u8>, pub script: VecDeque<Ev> }
+pub struct Snk { pub out: Vec<u8>, pub script: VecDeque<Ev>, pub flush_mode: u8, pub flushes: usize }
 
 impl Snk {
-    pub fn new(script: VecDeque<Ev>) -> Self { Snk { out: Vec::new(), script } }
+    pub fn new(script: VecDeque<Ev>) -> Self { Snk { out: Vec::new(), script, flush_mode: 0, flushes: 0 } }
+    pub fn with_flush(script: VecDeque<Ev>, flush_mode: u8) -> Self { Snk { out: Vec::new(), script, flush_mode, flushes: 0 } }
 }
 
 // NB: only `write` / `flush`, so `write_all` is std's default implementation.
@@ -95,6 +96,15 @@ impl AsyncWrite for Snk {
             Step::Pending => Poll::Pending
         }
     }
-    fn poll_flush(self: Pin<&mut Self>, _: &mut Context<'_>) -> Poll<io::Result<()>> { Poll::Ready(Ok(())) }
+    fn poll_flush(mut self: Pin<&mut Self>, _: &mut Context<'_>) -> Poll<io::Result<()>> {
+        // `write` / `sync` of the AsyncWriter never flush (only `AsyncWriter::flush` does): whatever a flush would answer must not show
+        self.flushes += 1;
+        match self.flush_mode {
+            1 => if self.flushes % 2 == 1 { Poll::Pending } else { Poll::Ready(Ok(())) },
+            2 => Poll::Ready(Err(io::ErrorKind::Other.into())),
+            3 => Poll::Pending,
+            _ => Poll::Ready(Ok(()))
+        }
+    }
     fn poll_close(self: Pin<&mut Self>, _: &mut Context<'_>) -> Poll<io::Result<()>> { Poll::Ready(Ok(())) }
 }
